@@ -695,3 +695,48 @@ def str_index_guard(body, bb, t):
     if mutated_between(body, k, cb, bb):
         return None
     return f"slice bound is the find() hit on the same, unmodified &str ({name})"
+
+
+def position_index_guard(body, bb, t):
+    """v[i] / v[..i] / v[i..] / v[i + 1..] on a Vec or slice where i is the hit of position() / rposition() over an
+    iterator of the same, unmodified collection: i < len, so each of these is in range"""
+    recv, a1 = t["args"][0], t["args"][1]
+    rk = value_key(body, recv)
+    if rk is None:
+        return None
+
+    def hit(op, allow_succ):
+        k, cb = _search_origin(body, op, ("position", "rposition"))
+        if k is not None:
+            return k, cb, ""
+        if allow_succ:
+            o = R.origin(body, op, carriers={})
+            rv = o[1] if o[0] == "rv" else None
+            if rv is not None and rv.get("k") in ("binop", "checked_binop") and str(rv.get("op", "")).startswith("Add"):
+                for x, y in ((rv["a"], rv["b"]), (rv["b"], rv["a"])):
+                    if const_int(y) == 1:
+                        k, cb = _search_origin(body, x, ("position", "rposition"))
+                        if k is not None:
+                            return k, cb, " + 1"
+        return None, None, ""
+
+    o = R.origin(body, a1, carriers={})
+    form = None
+    if o[0] == "rv" and o[1].get("k") == "aggr" and o[1].get("adt", "").startswith("std::ops::Range"):
+        name = o[1]["adt"].split("::")[-1]
+        if name == "RangeTo":
+            k, cb, sfx = hit(o[1]["ops"][0], True)
+            form = f"..i{sfx}"
+        elif name == "RangeFrom":
+            k, cb, sfx = hit(o[1]["ops"][0], True)
+            form = f"i{sfx}.."
+        else:
+            return None
+    else:
+        k, cb, sfx = hit(a1, False)
+        form = "[i]"
+    if k is None or k != rk:
+        return None
+    if mutated_between(body, rk, cb, bb):
+        return None
+    return f"index {form} where i is the position() hit on the same, unmodified collection (i < len)"
